@@ -96,7 +96,9 @@ def run_blob(case):
     fmt = case.get("fmt", ".bin")
     st_ = None
     try:
-        st_ = stack.Stack([session.SIMPLE_SPEC, session.SECOND_SPEC], case.get("frags"))
+        # a third driver of the same server follows DEV and wants its BLOBs (in-process snooping client, registered first)
+        st_ = stack.Stack([session.SIMPLE_SPEC, session.SECOND_SPEC, session.SNOOPER_SPEC], case.get("frags"), snoopers=[(2, "DEV", "Also")])
+        snooper = st_.snoops[0]
         drv = st_.dep.drivers[0]
         drv2 = st_.dep.drivers[1]
         client = st_.client
@@ -161,6 +163,14 @@ def run_blob(case):
             got_fmt = None if (got is None or isinstance(got, str)) else (got.format or "")
             if got_fmt != (want.format or ""):
                 raise Failure("blob-connection:empty-blob-format-lost", f"{where}: driver published an empty BLOB with format {want.format!r}, the Client holds format {got_fmt!r}")
+        # ---- ... and by the snooping driver of the same server ---------------------------------------
+        if "DEV" in snooper and "BLB" in snooper["DEV"]:
+            sv = snooper["DEV"]["BLB"]["A"].value
+            sb = b"" if (sv is None or isinstance(sv, str)) else sv.binary
+            if sb != want_bytes:
+                raise Failure("snooping-driver:payload-differs", f"{where}: the snooping driver holds {len(sb)} bytes, driver {len(want_bytes)}")
+        else:
+            raise Failure("snooping-driver:property-unknown", f"{where}: the snooping driver does not know DEV.BLB")
         # ---- sentinel: nothing stalls ----------------------------------------------------------
         st_.in_loop(lambda: setattr(drv.g.t.b, "value", f"sentinel-{n}"))
         if client["DEV"]["TXT"]["B"].value != f"sentinel-{n}":
